@@ -1,0 +1,15 @@
+// Copyright 2022-2026 Sauce Labs Inc., all rights reserved.
+//
+// This Source Code Form is subject to the terms of the Mozilla Public
+// License, v. 2.0. If a copy of the MPL was not distributed with this
+// file, You can obtain one at https://mozilla.org/MPL/2.0/.
+
+//go:build verif
+
+package h2rig
+
+import "github.com/saucelabs/forwarder/internal/martian/h2"
+
+// Config is h2.Config: its Proxy method is the production entry point (TLS dial with ALPN h2 to the
+// server, preface forwarding, the two relay goroutines with their writer loops).
+type Config = h2.Config
